@@ -176,3 +176,26 @@ Example C05_random_skip_example :
   /\ map fst (attempts w') = [3; 2; 0; 4].
 Proof. vm_compute. repeat split; reflexivity. Qed.
 Print Assumptions C05_random_skip_example.
+
+Theorem C05_eot_tries_following_candidates_random :
+  forall shuf f us c x rest len w,
+  World.tl w <> [] -> shuffled w = us ++ x :: rest -> zlen us < zlen (World.tl w) * 2 ->
+  settled_on w c -> pstate w = Playing -> consume w = false -> random w = true -> single w = false ->
+  a_atf_done w = false -> len_of w (trk c) = Some len -> script w = [] ->
+  (forall u, In u us -> kind_of w (trk u) <> Playable) -> kind_of w (trk x) = Playable ->
+  let w' := run_world shuf (S (length us + f)) w [AboutToFinish; Deliver; Deliver] in
+  current w' = Some x /\ pstate w' = Playing /\ pending w' = None /\ queue w' = []
+  /\ a_uri w' = Some (trk x) /\ a_state w' = Playing /\ World.tl w' = World.tl w
+  /\ events w' = EvStarted x :: EvStateChanged Playing Playing :: EvEnded c len :: events w.
+Proof. exact eot_skips_unplayable_random. Qed.
+Print Assumptions C05_eot_tries_following_candidates_random.
+
+Example C05_random_eot_skip_example :
+  let w := run_world shuf_concrete 50 (init_world 50 [Refuse; NoBackend; Raises; Playable; Playable; Playable]
+                                         [Some 900; Some 900; Some 900; Some 900; Some 900; Some 900] [] None None)
+             [Add [0; 1; 2; 3; 4; 5] None; Play (Some 5); Deliver; Deliver; Deliver; Deliver; SetMode 1 true] in
+  let w' := run_world shuf_concrete 50 w [AboutToFinish; Deliver; Deliver] in
+  map tlid (shuffled w) = [1; 2; 3; 4; 5; 6] /\ option_map tlid (current w) = Some 5 /\ pstate w = Playing /\ queue w = []
+  /\ option_map tlid (current w') = Some 4 /\ pstate w' = Playing /\ map tlid (shuffled w') = [5; 6].
+Proof. vm_compute. repeat split; reflexivity. Qed.
+Print Assumptions C05_random_eot_skip_example.
